@@ -128,7 +128,9 @@ def list_props(item_class: type, prop_name="_props"):
         # noinspection PyDecorator, PyShadowingNames
         @staticmethod
         def _default(props: dict = props) -> dict:
-            return {k: pd.Series(v[1], dtype=v[0]) for k, v in props.items()}
+            # One row of defaults. The default is wrapped so that a list-valued
+            # default (e.g. Quaver keysounds) is one cell, not an empty column.
+            return {k: pd.Series([v[1]], dtype=v[0]) for k, v in props.items()}
 
         cl._default = _default
 
